@@ -3,6 +3,7 @@ package c05
 import (
 	"errors"
 	"fmt"
+	"strings"
 	"time"
 
 	"pgregory.net/rapid"
@@ -23,6 +24,9 @@ type CBCase struct {
 	TimeoutMS int  `json:"timeout_ms"` // initial timeout
 	NextMS    int  `json:"next_ms"`    // next-timeout of the firing callbacks (0 = none)
 	ZeroDelay bool `json:"zero_delay"` // ReadDelay 0
+	// Loss (property C06): instead of going quiet the connection is lost (persistent read error /
+	// EOF) while the callback loop waits, with a long timeout in force: the send must fail promptly.
+	Loss string `json:"loss,omitempty"`
 }
 
 func genCB(t *rapid.T) CBCase {
@@ -34,7 +38,30 @@ func genCB(t *rapid.T) CBCase {
 	}
 }
 
+// runCB: wall-clock tier. Upper bounds (and the watchdog) only count when they are exceeded three
+// times in a row: a loaded machine can delay one run by hundreds of milliseconds.
 func runCB(c CBCase) ev.Verdict {
+	var v ev.Verdict
+
+	for attempt := 0; attempt < 3; attempt++ {
+		v = runCB1(c)
+		if v.OK || !strings.Contains(v.Msg, "[bound]") {
+			return v
+		}
+	}
+
+	return v
+}
+
+func genCBLoss(t *rapid.T) CBCase {
+	c := genCB(t)
+	c.TimeoutMS, c.NextMS = 2000, 0
+	c.Loss = rapid.SampledFrom([]string{"err", "eof"}).Draw(t, "loss")
+
+	return c
+}
+
+func runCB1(c CBCase) ev.Verdict {
 	step := 0
 	dev := &sim.CLI{NL: "\r\n", Prompt: func() string { return "" }}
 	dev.OnLine = func(string) (string, bool) {
@@ -47,13 +74,33 @@ func runCB(c CBCase) ev.Verdict {
 	}
 
 	pipe := sim.NewPipe(dev)
+	lossAt := time.Time{}
+
+	if c.Loss != "" {
+		// the loss follows the last output by a few milliseconds
+		go func() {
+			for i := 0; i < 400 && step <= c.Steps; i++ {
+				time.Sleep(time.Millisecond)
+			}
+
+			time.Sleep(20 * time.Millisecond)
+			lossAt = time.Now()
+
+			if c.Loss == "eof" {
+				pipe.SetFault(sim.FaultEOF, 0)
+			} else {
+				pipe.SetFault(sim.FaultErr, 0)
+			}
+		}()
+	}
+
 	rd := 50 * time.Microsecond
 
 	if c.ZeroDelay {
 		rd = 0
 	}
 
-	d, err := generic.NewDriver("sim", options.WithCustomTransport(pipe), options.WithReadDelay(rd), options.WithTimeoutOps(time.Second))
+	d, err := generic.NewDriver("sim", options.WithCustomTransport(pipe), options.WithReadDelay(rd), options.WithTimeoutOps(3*time.Second))
 	if err != nil {
 		return ev.Fail("NewDriver: %v", err)
 	}
@@ -117,6 +164,14 @@ func runCB(c CBCase) ev.Verdict {
 			return ev.Fail("callback send against a device that went quiet reported success")
 		}
 
+		if c.Loss != "" {
+			if el := end.Sub(lossAt); el > 700*time.Millisecond {
+				return ev.Fail("[bound] callback send returned %v after the connection was lost (%s) with a 2 s timeout in force: %v", el, c.Loss, o.err)
+			}
+
+			return ev.Verdict{OK: true, NonTrivial: true, Classes: []string{"loss=" + c.Loss, fmt.Sprintf("steps=%d", c.Steps)}}
+		}
+
 		if !errors.Is(o.err, util.ErrTimeoutError) {
 			return ev.Fail("error %v, want a timeout error", o.err)
 		}
@@ -124,11 +179,19 @@ func runCB(c CBCase) ev.Verdict {
 		if el := end.Sub(last); el < inForce-2*time.Millisecond {
 			return ev.Fail("timed out %v after the last callback; timeout in force %v", el, inForce)
 		}
-	case <-time.After(5 * time.Second):
-		return ev.Verdict{OK: true, Infeasible: true, Classes: []string{"watchdog"}}
+
+		// the timeout given to the send (or the callback's next-timeout) is the one in force, not
+		// the connection-wide 3 s
+		if el := end.Sub(last); el > inForce+600*time.Millisecond {
+			return ev.Fail("[bound] timed out %v after the last callback; timeout in force %v (connection-wide 3s)", el, inForce)
+		}
+	case <-time.After(8 * time.Second):
+		return ev.Fail("[bound] callback send did not return within 8 s (timeout in force %v, connection-wide 3s)", inForce)
 	}
 
 	return ev.Verdict{OK: true, NonTrivial: c.Steps > 0 || c.ZeroDelay, Classes: []string{fmt.Sprintf("steps=%d", c.Steps), fmt.Sprintf("zero-delay=%v", c.ZeroDelay)}}
 }
 
 var cbProp = &ev.Prop[CBCase]{ID: "C05", Name: "callbacks-rt", Gen: genCB, Run: runCB}
+
+var cbLossProp = &ev.Prop[CBCase]{ID: "C06", Name: "callbacks-loss-rt", Gen: genCBLoss, Run: runCB}
